@@ -685,6 +685,15 @@ impl Resolution<'_> {
             version: env!("CARGO_PKG_VERSION"),
         }));
 
+        // A merge conflict can involve an explicit import as well as an instantiation
+        let span_of = |node: &NodeId| {
+            self.instantiation_spans
+                .get(node)
+                .or_else(|| self.import_spans.get(node))
+                .copied()
+                .expect("node should be an instantiation or an import")
+        };
+
         self.graph.encode(options).map_err(|e| match e {
             EncodeError::ValidationFailure { source } => Error::ValidationFailure { source },
             EncodeError::GraphContainsCycle { .. } => panic!("AST contained a cycle"),
@@ -706,8 +715,8 @@ impl Resolution<'_> {
                 source,
             } => Error::InstantiationArgMergeFailure {
                 name: import,
-                span: self.instantiation_spans[&second],
-                instantiation: self.instantiation_spans[&first],
+                span: span_of(&second),
+                instantiation: span_of(&first),
                 source,
             },
         })
